@@ -48,6 +48,22 @@ Theorem C03_app_judgement_transfer : forall sc t, JudgeC03P.profile_C03b sc = tr
 Proof. exact JudgeC03P.C03_judgement_transfer. Qed.
 
 
+(* ---- source tie (DESIGN 11.8): definitions REGENERATED from the Rust source text by bin/rs2v.py on every run
+   (coq/Generated/*.v) coincide with the hand-written model ---- *)
+From BEI Require Generated.ValueSrc Generated.EventsSrc Generated.TrackerSrc Proofs.SrcTieP.
+Theorem C03_source_tracker_state : forall t, TrackerSrc.tracker_state_src t = Tracker.tracker_state t.
+Proof. exact SrcTieP.tracker_state_tie. Qed.
+
+Theorem C03_source_apply_condition : forall k s t, TrackerSrc.apply_cond_src k s t = Tracker.apply_result t k s.
+Proof. exact SrcTieP.apply_cond_tie. Qed.
+
+Theorem C03_source_new_tracker : forall v, TrackerSrc.new_src v = Tracker.tracker_new v.
+Proof. exact SrcTieP.new_tie. Qed.
+
+Theorem C03_source_events_blocked : forall t, TrackerSrc.events_blocked_src t = Tracker.events_blocked t.
+Proof. exact SrcTieP.events_blocked_tie. Qed.
+
+
 Print Assumptions C03_tracker_law.
 Print Assumptions C03_conditions_keep_value.
 Print Assumptions C03_both_levels.
@@ -80,3 +96,7 @@ Qed.
 Print Assumptions C03_every_evaluation_of_a_frame.
 Print Assumptions C03_app_judgement_sound.
 Print Assumptions C03_app_judgement_transfer.
+Print Assumptions C03_source_tracker_state.
+Print Assumptions C03_source_apply_condition.
+Print Assumptions C03_source_new_tracker.
+Print Assumptions C03_source_events_blocked.
